@@ -169,6 +169,15 @@ def bounded_live_object(reg, tier, seed):
                         raise AssertionError(f"get_effective_id({a}) answers {got}; a tracker in the same state that was never asked before answers {want}")
                     if t.was_injected(got):
                         raise AssertionError(f"get_effective_id({a}) = {got}, an ID used for an injected packet")
+                for w_ in range(1, t._packet_id_base + 4):
+                    def back(tr_, w=w_):
+                        try:
+                            return tr_.get_original_id(w)
+                        except ValueError:
+                            return "injected"
+                    got, want = back(t), back(ref)
+                    if got != want:
+                        raise AssertionError(f"get_original_id({w_}) answers {got}; a tracker in the same state that was never asked before answers {want}")
             except AssertionError as ex:
                 if len(failures) < 4:
                     failures.append({"key": "InjectionTracker.live-object/bounded", "clause": str(ex), "input": {"maxlen": ml, "ops": [str(o) for o in ops]},
